@@ -11,7 +11,10 @@
      "execute"  {"s":k,"ps":[i],"res":R,"same":b}     on the shared object       R = {ok,desc,rows} (modelled statement)
      "text"     {"s":k,"ps":[i],...}                  on a private object            = {ok,hash} (opaque statement: a
      "many"     {"s":k,"ps":[i,j,..],...}             parse once, execute each           ledger statement outside the model)
-     "fold"     {"folded":V,"perrow":V}      a constant expression folded by the compiler / evaluated per row
+     "fresh"    {"s":k,"ps":[i],...}                  execute(text) on a NEW connection over the same data (no history at
+                                                      all: the reference every other execution must agree with)
+     "fold"     {"folded":V,"perrow":V,"params":V}    a constant expression folded by the compiler / evaluated per row
+                                                      from columns / with the constants passed as parameters
    `same` = the source tables / ledger entries compared equal before and after the call.
 
    For a modelled statement the logged result must be Denote(text, params, data).  For an opaque statement the
@@ -44,7 +47,7 @@ TInit == Init /\ l = 2 /\ nbad = 0 /\ seen = EmptyFn
 Key(e) == <<e.s, e.ps[Len(e.ps)]>>
 Judge(e, out) ==
     CASE e.op \in {"begin", "parse"} -> TRUE
-      [] e.op = "fold" -> e.folded = e.perrow
+      [] e.op = "fold" -> e.folded = e.perrow /\ e.params = e.folded
       [] OTHER ->
            /\ e.same
            /\ AllMatch(e.s, e.ps) =>
@@ -57,7 +60,7 @@ Judge(e, out) ==
 TNext ==
     /\ l <= Len(TraceLog)
     /\ LET e == TraceLog[l]
-           call == e.op \in {"execute", "text", "many"}
+           call == e.op \in {"execute", "text", "many", "fresh"}
            shared == e.op = "execute"
            out == IF call THEN ExecSeq(e.s, IF shared THEN stmts[e.s].names ELSE FreshNames(Text(e.s)), e.ps, 1, ErrorResult)
                   ELSE [names |-> EmptyFn, res |-> ErrorResult]
